@@ -18,7 +18,7 @@ import (
 
 var timedTs = []int64{1_000_000, 50_000_000, 1_000_000_000, 5_000_000_000}
 
-var irrKinds = []string{"ix", "ig", "io", "ih", "ih0", "ih3", "ih5", "ihx", "ie"}
+var irrKinds = []string{"ix", "ig", "io", "ih", "ih0", "ih3", "ih5", "ihx", "ie", "ib0", "ib8"}
 
 func schedAt(T int64, k int) int64 { return T * ((int64(1) << uint(k)) - 1) }
 
@@ -164,7 +164,7 @@ func genTimedScenario(r *Rng, v6 bool) (cScenario, []string) {
 		}
 	default:
 		tags = append(tags, "mixed")
-		kinds := []string{"rej", "rej", "rej", "acc", "can", "clo", "ix", "ig", "io", "ih", "ih0", "ih3", "ih5", "ihx", "ie"}
+		kinds := []string{"rej", "rej", "rej", "acc", "can", "clo", "ix", "ig", "io", "ih", "ih0", "ih3", "ih5", "ihx", "ie", "ib0", "ib8"}
 		cnt := r.Range(2, 9)
 		sameInstant := r.Chance(1, 3)
 		t0, _ := gridInstant(r, sc.T, r.Range(0, kmax))
